@@ -170,7 +170,10 @@ def rand_universe(rng, o=None, uid=0):
             for j in range(nf):
                 fn = 'f%d_%d' % (i, j)
                 if o.attrs and rng.random() < .12:
-                    fields.append([fn, {'attr': rand_prim(rng, o, allow_occ=False)}])
+                    at_ = rand_prim(rng, o, allow_occ=False)
+                    if rng.random() < .3:
+                        at_['min_occurs'] = 1          # a required attribute
+                    fields.append([fn, {'attr': at_}])
                 else:
                     fields.append([fn, rand_tspec(rng, o, [t for t in types if True], o.max_depth - 1)])
         if getattr(o, 'choice_groups', False) and not has_xmldata and rng.random() < .5:
@@ -486,7 +489,8 @@ def inheritance_ir(uid=9100, ns2=True):
         return [['m%d' % k, dict(U(), min_occurs=1, nillable=False)], ['o%d' % k, I(ge=0, le=9)],
                 ['r%d' % k, dict({'seq': I(), 'max': 2})], ['a%d' % k, {'array': U(max_len=3)}],
                 ['n%d' % k, dict(I(), min_occurs=1)]]
-    types = [{'name': 'L0', 'ns': ns, 'base': None, 'has_xmldata': False, 'fields': level(0, ns)},
+    types = [{'name': 'L0', 'ns': ns, 'base': None, 'has_xmldata': False,
+              'fields': level(0, ns) + [['at0', {'attr': dict(U(), min_occurs=1)}], ['ao0', {'attr': I(ge=0, le=9)}]]},
              {'name': 'L1', 'ns': ns, 'base': 'L0', 'has_xmldata': False, 'fields': level(1, ns)},
              {'name': 'L2', 'ns': ns, 'base': 'L1', 'has_xmldata': False, 'fields': level(2, ns)},
              {'name': 'Hold', 'ns': ns + (':h' if ns2 else ''), 'base': None, 'has_xmldata': False,
@@ -523,6 +527,8 @@ def chunked(v):
     so that a case replays identically: one chunk, or several chunks whose lengths are not multiples of three, sometimes with
     an empty chunk in the middle"""
     n = len(v)
+    if n == 0:
+        return []            # no chunks at all is also the empty byte string
     if n < 2 or n % 4 == 0:
         return [v]
     if n % 4 == 1:
@@ -635,6 +641,8 @@ def gen_value(rng, ir, t, depth=3, top=False, alphabet='xml', subclass_ok=False)
     nillable = t.get('nillable', True)
     if 'xmldata' in t and t['xmldata'].get('prim') not in ('Unicode',):
         top = True      # the text content of a simpleContent type cannot be absent unless it is a string
+    if 'attr' in t and t['attr'].get('min_occurs', 0) >= 1:
+        top = True      # a required attribute
     if not top and (optional or nillable) and rng.random() < .15:
         return None
     if 'prim' in t:
@@ -698,7 +706,7 @@ def gen_value(rng, ir, t, depth=3, top=False, alphabet='xml', subclass_ok=False)
             out.append(out[0])
         return out
     if 'attr' in t:
-        return gen_value(rng, ir, t['attr'], depth, alphabet=alphabet)
+        return gen_value(rng, ir, t['attr'], depth, top=t['attr'].get('min_occurs', 0) >= 1, alphabet=alphabet)
     if 'xmldata' in t:
         return gen_value(rng, ir, t['xmldata'], depth, top=True, alphabet=alphabet)
     raise KeyError(t)
